@@ -131,15 +131,34 @@ impl Engine for C14 {
                         out.probe("run_ended_abnormally", 1);
                         return out;
                     }
-                    let kc = kcount(cfg.k);
                     let dl = cfg.delim.len();
                     let n = case.records.len();
-                    let row_len = kc * 8 + (kc - 1) * dl + 1;
-                    let header_len = if cfg.header { kc * cfg.k + (kc - 1) * dl + 1 } else { 0 };
-                    let want = header_len + n * row_len;
                     let file = ro.output.unwrap_or_default();
                     out.note(&file);
-                    if file.len() != want {
+                    // geometry from the file itself: [one header line] + n rows of
+                    // one common length (the property: file size = header length +
+                    // records x row length), whatever the number format is
+                    let header_len = if cfg.header {
+                        match file.iter().position(|&b| b == b'\n') {
+                            Some(p) => p + 1,
+                            None => {
+                                out.fail("file_size", format!("header requested but the mapped file ({} bytes) holds no complete first line", file.len()));
+                                return out;
+                            }
+                        }
+                    } else {
+                        0
+                    };
+                    let body = &file[header_len..];
+                    let row_len = match body.iter().position(|&b| b == b'\n') {
+                        Some(p) => p + 1,
+                        None => 0,
+                    };
+                    let kc = kcount(cfg.k);
+                    let want = header_len + n * row_len;
+                    let fields_ok = row_len == 0
+                        || body[..row_len - 1].len() >= kc + (kc - 1) * dl;
+                    if file.len() != want || (n > 0 && row_len == 0) || !fields_ok {
                         out.fail(
                             "file_size",
                             format!(
@@ -148,6 +167,13 @@ impl Engine for C14 {
                                 cfg.k,
                                 cfg.delim
                             ),
+                        );
+                        return out;
+                    }
+                    if n > 0 && body.chunks(row_len).any(|r| r.last() != Some(&b'\n') || r[..row_len - 1].contains(&b'\n')) {
+                        out.fail(
+                            "file_size",
+                            format!("rows of the mapped file do not all have the length of the first one ({row_len} bytes; k={}, delimiter {:?})", cfg.k, cfg.delim),
                         );
                         return out;
                     }
